@@ -295,3 +295,20 @@ M("c08-missing-asy-skipped", "C08", CFD + "__init__.py", "                if \"F
 M("c08-asy-extra-singlet-lo", "C08", CFD + "asy/f2_nc.py", "class AsyLLSinglet(AsySinglet):\n    def NNLO(self):", "class AsyLLSinglet(AsySinglet):\n    def NLO(self):\n        def cps_LL_NLO(z, args):\n            return raw_nc.c2g1am0_aq(z) * args[0]\n\n        return RSL(cps_LL_NLO, args=[self.L])\n\n    def NNLO(self):", expect="C08.support")
 B("c08-rename-local", "C08", CFD + "asy/kernels.py", "    asys = []\n    for res in range(pto_evol + 1):\n        name = \"Asy\" + (\"N\" * res) + \"LL\" + \"NonSinglet\"", "    asys = []\n    for res in range(pto_evol + 1):\n        name = \"\".join([\"Asy\", \"N\" * res, \"LL\", \"NonSinglet\"])")
 M("c08-skip-heavylight-revert", "C08", CFD + "asy/kernels.py", "        nf,\n        esf.info.obs_name.is_parity_violating,\n    )\n    if icoupl is not None:\n        weights[\"ns\"] = {k: v for k, v in weights[\"ns\"].items() if abs(k) == icoupl}\n\n    kind = esf.info.obs_name.kind\n    asy_cfs", "        nf,\n        esf.info.obs_name.is_parity_violating,\n        skip_heavylight=True,\n    )\n    if icoupl is not None:\n        weights[\"ns\"] = {k: v for k, v in weights[\"ns\"].items() if abs(k) == icoupl}\n\n    kind = esf.info.obs_name.kind\n    asy_cfs", expect="C08.support")
+
+# ----------------------------------------------------------------------------- C15
+M("c15-drop-errors", "C15", RSF, '                np.array(e["values"]),\n                np.array(e["errors"]),', '                np.array(e["values"]),\n                np.array(e["values"]),', expect="C15.roundtrip")
+M("c15-rename-q2", "C15", RSF, "        d = dict(x=float(self.x), Q2=float(self.Q2), nf=nf, orders=[])", "        d = dict(x=float(self.x), q2=float(self.Q2), nf=nf, orders=[])", expect="C15.roundtrip")
+M("c15-tar-vals-key", "C15", OUF, '                    for kin, val, err in zip(kinematics, op["values"], op["errors"]):', '                    for kin, val, err in zip(kinematics, op["errors"], op["values"]):', expect="C15.roundtrip")
+M("c15-float32", "C15", OUF, "                        values=np.array(values),\n", "                        values=np.array(values, dtype=np.float32),\n", expect="C15.roundtrip")
+M("c15-round", "C15", RSF, "                dict(order=list(o), values=v.tolist(), errors=e.tolist())", "                dict(order=list(o), values=[[round(c, 12) for c in r] for r in v.tolist()], errors=e.tolist())", expect="C15.roundtrip")
+M("c15-xs-loses-y", "C15", RSF, '        d["y"] = float(self.y)\n', "", expect="C15.roundtrip")
+M("c15-empty-revert", "C15", OUF, '                ESFResult if len(obj[obs]) == 0 or "y" not in obj[obs][0] else EXSResult', '                ESFResult if "y" not in obj[obs][0] else EXSResult', expect="C15.roundtrip")
+M("c15-grid-revert", "C15", OUF, '            out[k]["grid"] = np.array(self[k]["grid"]).tolist()', '            out[k]["grid"] = self[k]["grid"]', expect="C15.roundtrip")
+M("c15-tar-order-sort", "C15", OUF, "                    metadata[metafield] = dict(\n                        orders=orders_first, kinematics=kinematics\n                    )", "                    metadata[metafield] = dict(\n                        orders=sorted(orders_first, reverse=True), kinematics=kinematics\n                    )", expect="C15.roundtrip")
+M("c15-yaml-drops-theory", "C15", OUF, '        out["theory"] = self.theory\n', '        out["theory"] = None\n', expect="C15.roundtrip")
+M("c15-tar-runcards-swapped", "C15", OUF, '            out.theory = yaml.safe_load((runcards / "theory.yaml").read_text())\n            out.observables = yaml.safe_load(\n                (runcards / "observables.yaml").read_text()\n            )', '            out.observables = yaml.safe_load((runcards / "theory.yaml").read_text())\n            out.theory = yaml.safe_load(\n                (runcards / "observables.yaml").read_text()\n            )', expect="C15.roundtrip")
+M("c15-nf-float", "C15", RSF, "            nf = int(self.nf)", "            nf = int(self.nf) + 1", expect="C15.roundtrip")
+M("c15-none-dropped", "C15", OUF, "        for f in self:\n            out[f] = copy.copy(self[f])\n", "        for f in self:\n            if self[f] is None:\n                continue\n            out[f] = copy.copy(self[f])\n", expect="C15.roundtrip")
+M("c15-filter-asym", "C15", OUF, "            for metafield, metavalue in metadata.items():\n                if not on.ObservableName.is_valid(metafield) or metavalue is None:", "            for metafield, metavalue in metadata.items():\n                if metafield not in on.kinds or metavalue is None:", expect="C15.roundtrip")
+B("c15-listcomp", "C15", RSF, "        for o, (v, e) in self.orders.items():\n            d[\"orders\"].append(\n                dict(order=list(o), values=v.tolist(), errors=e.tolist())\n            )\n        return d", "        d[\"orders\"] = [dict(order=list(o), values=v.tolist(), errors=e.tolist()) for o, (v, e) in self.orders.items()]\n        return d")
